@@ -131,6 +131,10 @@ Next ==
      \/ \E P \in NonEmpty(Pkgs) : Show(P)
 NextDiff == (MaxHist = 0 \/ Len(hist) < MaxHist) /\ \E P \in NonEmpty(Pkgs), hdr \in Headers, tg \in Tags : Diff(P, hdr, tg)
 NextGen  == (MaxHist = 0 \/ Len(hist) < MaxHist) /\ \E P \in NonEmpty(Pkgs), hdr \in Headers, x \in Prefixes, tg \in Tags : Gen(P, hdr, x, tg, "gen")
+\* gen immediately followed by the matching diff (C18's last clause), from every focused state
+NextGenDiff == /\ Len(hist) < MaxHist
+               /\ IF hist = <<>> THEN \E P \in NonEmpty(Pkgs), hdr \in {"none", "ok"}, tg \in Tags : Gen(P, hdr, "std", tg, "gen")
+                  ELSE Diff(last.args.pkgs, last.args.header, last.args.tags)
 Spec == Init /\ [][Next]_vars
 
 (* ---- properties (all over the step just taken: last', src', disk') -------------- *)
